@@ -12,7 +12,12 @@ LEVEL = "proof"
 EXPLANATION = (
     "Lean list model of apply_transform / _order_backends / cached call. Theorems over the whole (finite) family of "
     "chains: final backend order = [unit?, quant?, last?], both orders commute, each transform once, repeat-stable, "
-    "intermediate calls irrelevant; for action sequences of any length, interleaved calls never change the backend list. "
+    "intermediate calls irrelevant; for action sequences of any length, interleaved calls never change the backend list; "
+    "for EVERY chain the real code accepts (any length, repeated transforms): the final backend list is a permutation of "
+    "the applied transforms' backends (each exactly once), the backends other than unit scaling keep their application "
+    "order, and the last unit-scaling backend precedes the last quantisation backend (chain_spec, by induction over the "
+    "chain; lastIdx characterised by lastIdx_eq_some_iff). The guard (no unit_scale after track_scales/compile: "
+    "_order_backends raises AttributeError there) is part of the model and its error branch is observed. "
     "The check runs the real transforms through TorchDynamo on small modules: backend "
     "kinds and re-run flag after every action vs the model (correspondence); original module untouched (parameters, "
     "outputs, gradients, no shared storage), repeated calls equal, unit_scale∘simulate = simulate∘unit_scale on outputs "
@@ -21,7 +26,7 @@ EXPLANATION = (
 ASSUMPTIONS = ["TorchDynamo hands each backend the graph of the module (runtime not modelled)",
                "stochastic formats are pinned by resetting the global RNG seed before every call"]
 THMS = ["USProofs.C17.order_spec", "USProofs.C17.chain_commutes", "USProofs.C17.repeat_stable",
-        "USProofs.C17.intermediate_calls_irrelevant"]
+        "USProofs.C17.intermediate_calls_irrelevant", "USProofs.C17.chain_spec", "USProofs.C17.family_accepted"]
 
 
 def run(ctx: Ctx) -> None:
@@ -300,9 +305,43 @@ def run(ctx: Ctx) -> None:
             lg.removeHandler(cap)
             lg.setLevel(lvl)
 
+    # ---- model correspondence on chains of ANY composition (repeated transforms, up to 7 steps; no calls, so nothing is
+    #      compiled): the backend list and the rerun flag after every step.  These chains lie outside the property's family -
+    #      they only tie the model, whose general theorems (`chain_spec`: permutation, order of the others, unit before
+    #      quant) quantify over all chains, to `apply_transform` / `_order_backends` as they are.
+    names_ = ["unit_scale", "simulate", "track_scales", "compile"]
+    for gi in range(40 if quick else 600):
+        chain_ = [rng.choice(names_) for _ in range(rng.randint(1, 7))]
+        key = {"general_chain": chain_}
+        ctx.count(key, bucket="general-chains")
+        cur = builders["MLP"][0]()
+        trace_: List[Dict[str, Any]] = []
+        ok_ = False
+        with ctx.guard("C17:general-chain", key):
+            for t_ in chain_:
+                if t_ == "unit_scale":
+                    try:
+                        cur = unit_scale(cur)
+                    except AttributeError:
+                        # `_order_backends` reads `__qualname__` of every backend; the tracking / compile backends are objects
+                        # without one (outside the property's family, where both come last): the model has this error branch
+                        trace_.append({"err": "AttributeError"})
+                        break
+                elif t_ == "simulate":
+                    cur = formats["lossless"](cur)
+                elif t_ == "track_scales":
+                    cur = track_scales(cur)
+                else:
+                    cur = us_compile(cur)
+                trace_.append({"backends": [kind_of(b) for b in cur.backends], "rerun": bool(cur.rerun_transform)})
+            ok_ = True
+        if ok_:
+            model_reqs.append({"k": "backends", "actions": chain_})
+            model_obs.append((key, chain_, trace_))
+
     if ctx.driver_ok and model_reqs:
         for (key, actions, trace), r in zip(model_obs, driver.ask(model_reqs)):
-            mt = [{"backends": t["backends"], "rerun": t["rerun"]} for t in r["trace"]]
+            mt = [({"err": t["err"]} if "err" in t else {"backends": t["backends"], "rerun": t["rerun"]}) for t in r["trace"]]
             if mt != trace:
-                i = next((i for i, (a, b) in enumerate(zip(mt, trace)) if a != b), 0)
+                i = next((i for i, (a, b) in enumerate(zip(mt, trace)) if a != b), min(len(mt), len(trace)) - 1)
                 ctx.disagree("backend_chain", {**key, "actions": actions, "step": i}, mt[i], trace[i], THMS)
